@@ -10,8 +10,11 @@ Z3 = os.environ.get("VERIF_Z3", "/usr/bin/z3")
 
 
 class Pruner:
-    def __init__(self, per_query_ms=3000):
+    def __init__(self, per_query_ms=3000, budget_s=1800):
+        import time as _t
         self.per_query_ms = per_query_ms
+        self.budget_s = budget_s
+        self.t0 = _t.time()
         self.queries = 0
         self.pruned = 0
         self.unknown = 0
@@ -67,6 +70,10 @@ class Pruner:
         key = (tuple(sorted(set(hash(c) for c in pc))), hash(cond))
         if key in self.cache:
             return self.cache[key]
+        import time as _t
+        if _t.time() - self.t0 > self.budget_s:
+            from .execmir import Unsupported
+            raise Unsupported(f"pruning time budget of {self.budget_s}s exceeded")
         # the solver process accumulates every definition: restart it from time to time, and once if it dies
         if len(self.names) > 400000:
             self.close()
